@@ -321,8 +321,19 @@ def _event_loop(env, kind):
     drv.close()
 
 
+def scen_idle_after_unknown_event(env, name):
+    """'whenever the simulator does go idle the network is in a consistent state' - also when an output event of a
+    changed sequential block failed at its sender with EdzedUnknownEvent (the error that does not stop the simulation):
+    the catalogue network of C01 with such a destination behind input 0, judged by C01's closed-form oracle"""
+    from harness import C01
+    C01.scen_catalog(env, name, nburst=1, first_target=0, picky_input=0)
+
+
 def shards(tier):
     out = []
+    for name in (('diamond',) if tier == 'quick' else ('diamond', 'ladder', 'fb-not')):
+        out.append({'name': f'idle after an unknown event: {name}', 'scenario': 'scen_idle_after_unknown_event',
+                    'params': {'name': name}, 'cost': 30})
     for n in (1, 2):
         for fk in ('not', 'id', 'xor', 'and'):
             for f0 in ([None] if fk in ('not', 'id') or n == 1 else range(n + 1)):
